@@ -155,6 +155,17 @@ def run_construct(res, spec):
             for ft, m in obs.features.items():
                 if tuple(m.shape) != (sizes[ft.value], 1):
                     res.violation(check, "wrong-shape", sig=sig, spec=spec, observer=otype, feature_type=ft.value, shape=tuple(m.shape))
+            # a second observer of the same class with another feature-type
+            # subset on the SAME dispatcher is a distinct observer with exactly
+            # the requested types (feature observers are not singletons)
+            if sub is not None and len(sup) > 1:
+                other_types = [f for f in sup if f not in sub] or [sup[0]]
+                try:
+                    obs2 = feature_observer_factory(FeatureObserverType(otype), dispatcher=d, feature_types=[FT(f) for f in other_types])
+                    if obs2 is obs or {ft.value for ft in obs2.features} != set(other_types):
+                        res.violation(check, "second-observer-of-same-class-not-independent", sig=sig, spec=spec, observer=otype, first=sub, second=other_types, observed=sorted(ft.value for ft in obs2.features))
+                except Exception as exc:  # noqa: BLE001
+                    res.violation(check, f"second-observer-of-same-class-raised:{type(exc).__name__}", sig=sig, spec=spec, observer=otype, first=sub, second=other_types, error=repr(exc)[:200])
             try:
                 # composite over everything subscribed (the observer and the
                 # dependencies it created itself): one column per part
